@@ -91,26 +91,9 @@ func covered(dep string, key map[string]bool) bool {
 	return key[prm+".*"]
 }
 
-// ---------------------------------------------------------------------------------------------
-// C10
-
-func runC10(p *core.Prog, r *core.Result) {
-	r.Decided = []string{
-		"R10.1 every resolver cache is keyed by everything its cached value is computed from (path and version where both matter), so the answer cannot depend on what an earlier query left in the cache",
-		"R10.2 the version order handed to the MVS library: Max returns one of its two arguments as decided by cmpVersion, which ranks the root's empty version above every other before delegating to semver; Required answers the root's list exactly for the empty path",
-		"R10.3 the build list handed back to dawn contains every element the MVS library returned",
-		"R10.4 ordered results built from Go-map iteration inside internal/mvs are sorted before use or are order-insensitive; no map is folded into another under a colliding key",
-		"R10.7 locating the repository that owns a project path never returns 'the first answer received' from concurrent dials: which repository answers cannot depend on timing",
-		"R10.6 the version-resolution packages never order strings with < <= > >= (versions and major suffixes are ordered by semver.Compare only)",
-		"R10.5 a fetched project's summary lists every requirement of its configuration, one to one, in sorted name order",
-	}
-	r.NotDecided = []string{"that the result is the minimal-version-selection solution for all graphs (the algorithm lives in github.com/pgavlin/mvs, outside the repository; behavioural)", "network/VCS behaviour behind the resolver"}
-	// ---- R10.1
-	resolver := p.Named("internal/mvs", "Resolver")
-	if resolver == nil {
-		r.Unk("R10.1", "anchor:internal/mvs.Resolver", "-", "type not found")
-		return
-	}
+// checkResolverCaches: R10.1 (shared as R11.7): every sync.Map cache of the Resolver is keyed by everything - and by
+// the whole of everything - its cached value is computed from, and read under the key it is written under.
+func checkResolverCaches(p *core.Prog, r *core.Result, rule string) {
 	nCaches := 0
 	ignore := map[string]bool{"ctx.*": true, "r.*": true}
 	for _, fn := range p.ModuleFuncs() {
@@ -145,7 +128,18 @@ func runC10(p *core.Prog, r *core.Result) {
 			}
 			sort.Strings(kl)
 			construct := fmt.Sprintf("%s#cache:%s", fname(fn), field)
-			r.Check(len(missing) == 0, "R10.1", construct, p.InstrPos(c.(ssa.Instruction)), fmt.Sprintf("the cached value depends only on what the key is computed from (%s)", strings.Join(kl, ", ")), fmt.Sprintf("the cached value depends on %s, which the key (%s) does not cover: the first query decides the answer for all later ones that share the key, so the build list depends on the order of queries / the state of the cache", strings.Join(missing, ", "), strings.Join(kl, ", ")))
+			// ... and in full: a component the value uses whole (not through a truncating helper) must reach the key whole
+			kdW, vdW := paramDepsWhole(fn, key), paramDepsWhole(fn, val)
+			for d := range vdW {
+				if ignore[d] || strings.HasPrefix(d, "ctx.") || strings.HasSuffix(d, ".*") {
+					continue
+				}
+				if covered(d, kd) && !covered(d, kdW) {
+					missing = append(missing, d+" (the key carries only a truncation of it)")
+				}
+			}
+			sort.Strings(missing)
+			r.Check(len(missing) == 0, rule, construct, p.InstrPos(c.(ssa.Instruction)), fmt.Sprintf("the cached value depends only on what the key is computed from (%s)", strings.Join(kl, ", ")), fmt.Sprintf("the cached value depends on %s, which the key (%s) does not cover: the first query decides the answer for all later ones that share the key, so the build list depends on the order of queries / the state of the cache", strings.Join(missing, ", "), strings.Join(kl, ", ")))
 			// the lookup uses the same key expression
 			okLoad := false
 			for _, c2 := range core.Calls(fn) {
@@ -163,10 +157,99 @@ func runC10(p *core.Prog, r *core.Result) {
 					}
 				}
 			}
-			r.Check(okLoad, "R10.1", construct+":lookup-key", p.InstrPos(c.(ssa.Instruction)), "looked up under the same key", "the cache is read under a different key than it is written")
+			r.Check(okLoad, rule, construct+":lookup-key", p.InstrPos(c.(ssa.Instruction)), "looked up under the same key", "the cache is read under a different key than it is written")
 		}
 	}
-	r.Floor("R10.1", nCaches, 1, "resolver cache stores")
+	r.Floor(rule, nCaches, 1, "resolver cache stores")
+}
+
+// truncatesArg: h is a module helper that returns a truncation of a string argument (s[:i], directly or through another
+// such helper): a value that passed through it no longer determines the argument.
+func truncatesArg(h *ssa.Function, depth int) bool {
+	if h == nil || !core.InModule(h) || h.Blocks == nil || depth > 2 {
+		return false
+	}
+	lossy := false
+	for _, ret := range core.ReturnsOf(h) {
+		for _, rv := range core.RetVals(ret) {
+			if bt, ok := rv.Type().Underlying().(*types.Basic); !ok || bt.Info()&types.IsString == 0 {
+				continue
+			}
+			for x := range core.BackwardSlice(rv, core.SliceOpts{Stores: true}) {
+				switch y := x.(type) {
+				case *ssa.Slice:
+					if y.High != nil {
+						if _, isPrm := y.X.(*ssa.Parameter); isPrm {
+							lossy = true
+						}
+					}
+				case *ssa.Call:
+					if truncatesArg(core.Callee(y), depth+1) {
+						lossy = true
+					}
+				}
+			}
+		}
+	}
+	return lossy
+}
+
+// paramDepsWhole is paramDeps restricted to dependences that do not pass through a truncating helper: the fields of
+// parameters that v depends on *in full*.
+func paramDepsWhole(fn *ssa.Function, v ssa.Value) map[string]bool {
+	out := map[string]bool{}
+	spill := map[ssa.Value]*ssa.Parameter{}
+	for _, f := range core.WithAnons(fn) {
+		core.Instrs(f, func(in ssa.Instruction) {
+			if st, ok := in.(*ssa.Store); ok {
+				if prm, ok := st.Val.(*ssa.Parameter); ok {
+					if a, ok := st.Addr.(*ssa.Alloc); ok {
+						spill[a] = prm
+					}
+				}
+			}
+		})
+	}
+	for x := range core.BackwardSlice(v, core.SliceOpts{Stores: true, ThroughCall: func(c *ssa.Call) bool { return !truncatesArg(core.Callee(c), 0) }}) {
+		switch y := x.(type) {
+		case *ssa.FieldAddr:
+			if prm, ok := spill[y.X]; ok {
+				_, fld := core.FieldOf(y)
+				out[prm.Name()+"."+fld] = true
+			}
+		case *ssa.Field:
+			if prm, ok := y.X.(*ssa.Parameter); ok {
+				_, fld := core.FieldOf(y)
+				out[prm.Name()+"."+fld] = true
+			}
+		case *ssa.Parameter:
+			out[y.Name()+".*"] = true
+		}
+	}
+	return out
+}
+
+// ---------------------------------------------------------------------------------------------
+// C10
+
+func runC10(p *core.Prog, r *core.Result) {
+	r.Decided = []string{
+		"R10.1 every resolver cache is keyed by everything its cached value is computed from (path and version where both matter), so the answer cannot depend on what an earlier query left in the cache",
+		"R10.2 the version order handed to the MVS library: Max returns one of its two arguments as decided by cmpVersion, which ranks the root's empty version above every other before delegating to semver; Required answers the root's list exactly for the empty path",
+		"R10.3 the build list handed back to dawn contains every element the MVS library returned",
+		"R10.4 ordered results built from Go-map iteration inside internal/mvs are sorted before use or are order-insensitive; no map is folded into another under a colliding key",
+		"R10.7 locating the repository that owns a project path never returns 'the first answer received' from concurrent dials: which repository answers cannot depend on timing",
+		"R10.6 the version-resolution packages never order strings with < <= > >= (versions and major suffixes are ordered by semver.Compare only)",
+		"R10.5 a fetched project's summary lists every requirement of its configuration, one to one, in sorted name order",
+	}
+	r.NotDecided = []string{"that the result is the minimal-version-selection solution for all graphs (the algorithm lives in github.com/pgavlin/mvs, outside the repository; behavioural)", "network/VCS behaviour behind the resolver"}
+	// ---- R10.1
+	resolver := p.Named("internal/mvs", "Resolver")
+	if resolver == nil {
+		r.Unk("R10.1", "anchor:internal/mvs.Resolver", "-", "type not found")
+		return
+	}
+	checkResolverCaches(p, r, "R10.1")
 	// FetchProject: the cache directory embeds path and version
 	if fp := need(p, r, "R10.1", "internal/mvs", "Resolver", "FetchProject"); fp != nil {
 		var dirV ssa.Value
@@ -406,7 +489,7 @@ func runC10(p *core.Prog, r *core.Result) {
 			}
 		}
 		okCmp := true
-		nSem := 0
+		nSem, nOrd := 0, 0
 		for _, ret := range core.ReturnsOf(cmp) {
 			vals := core.RetVals(ret)
 			aE, aN := holds(p, ret, true, isEmpty(a)), holds(p, ret, false, isEmpty(a))
@@ -421,13 +504,17 @@ func runC10(p *core.Prog, r *core.Result) {
 				okCmp = okCmp && isConst && k == 1 // root > v2
 			case aN && bN:
 				c, ok := vals[0].(*ssa.Call)
-				okCmp = okCmp && ok && core.IsCallTo(c, "golang.org/x/mod/semver", "Compare") && c.Call.Args[0] == ssa.Value(a) && c.Call.Args[1] == ssa.Value(b)
-				nSem++
+				isSem := ok && core.IsCallTo(c, "golang.org/x/mod/semver", "Compare") && c.Call.Args[0] == ssa.Value(a) && c.Call.Args[1] == ssa.Value(b)
+				nOrd++
+				r.Check(isSem, "R10.2", fmt.Sprintf("internal/mvs.cmpVersion#semver-order-%d", nOrd), p.InstrPos(ret), "two ordinary versions are ordered by semver.Compare of the two", "for two ordinary versions the verdict is something other than semver.Compare(v1, v2) (a commit time, a string order, a special case for pseudo-versions): such an order need not be total or agree with semver on the versions it does not single out, so Max is no longer associative - with three demands on one path the selected version depends on the order in which requirements are met, and it can be lower than a demanded one")
+				if isSem {
+					nSem++
+				}
 			default:
 				okCmp = false
 			}
 		}
-		r.Check(okCmp && nSem == 1, "R10.2", "internal/mvs.cmpVersion#root-greatest", p.Pos(cmp.Pos()), "the empty (root) version compares greater than every other version, equal to itself, and semver decides otherwise", "cmpVersion does not rank the root's empty version above all others on both sides before delegating to semver: the MVS library's Max contract is broken and the root can be 'upgraded away'")
+		r.Check(okCmp && nSem >= 1, "R10.2", "internal/mvs.cmpVersion#root-greatest", p.Pos(cmp.Pos()), "the empty (root) version compares greater than every other version, equal to itself, and semver decides otherwise", "cmpVersion does not rank the root's empty version above all others on both sides before delegating to semver: the MVS library's Max contract is broken and the root can be 'upgraded away'")
 	}
 	if Required != nil {
 		pp := Required.Params[len(Required.Params)-1]
@@ -695,8 +782,11 @@ func runC11(p *core.Prog, r *core.Result) {
 		"R11.6 the base argument of the MVS library's ReqList is nil or built from the build list of the same call (never from the root's pre-edit requirements), so no requirement is written back with an empty version",
 		"R11.5 get decides between upgrade, downgrade and no-op by comparing the requested version with the version selected in the build list, not with the root's own requirement entry",
 		"R11.4 requesting the version that is already selected returns the root's requirements unchanged",
+		"R11.7 the version lists and summaries that upgrade, downgrade and tidy consult come from resolver caches keyed by the whole of what the cached value was computed from (two major versions of one project path do not share an entry): an edit cannot be answered with another project's versions (rule shared with C10 R10.1)",
 	}
 	r.NotDecided = []string{"build-list equalities after tidy/upgrade/downgrade (algorithm in a dependency; behavioural)", "query resolution against tagged versions (ranges, latest, patch)"}
+	// ---- R11.7
+	checkResolverCaches(p, r, "R11.7")
 	// ---- R11.1
 	impls := 0
 	for _, fn := range p.ModuleFuncs() {
